@@ -24,6 +24,8 @@ def rows(quick, fault, drop):
         # every call returns on valid input too: exact multiples of the unit size, flush then finish, backlog at finish
         R += [("w-valid-small", "lzma2", 2, ["F", "P", "X"], {}, "tour"),
               ("w-exact", "lzma2", 2, ["F", "F", "X"], {}, "rand"),
+              ("w-flush-first", "lzma2", 2, ["f", "F", "X"], {}, "tour"),
+              ("w-flush-only", "lzip", 2, ["f", "f", "X"], {}, "tour"),
               ("w-exact-lzip", "lzip", 2, ["F", "F", "X"], {}, "tour"),
               ("w-flush-finish", "lzip", 2, ["F", "P", "f", "X"], {}, "rand"),
               ("w-backlog-1w", "lzip", 1, ["F", "F", "F", "X"], {}, "rand"),
@@ -56,6 +58,8 @@ def rows(quick, fault, drop):
               ("w-1w", "lzma2", 1, ["F", "F", "X"], {}, "tour"),
               ("w-preset", "lzma2", 2, ["F", "F", "P", "X"], dict(extra=dict(preset=True)), "rand"),
               # flush in the middle of a unit: a short unit, then full ones (unit boundaries no longer multiples)
+              ("w-flush-first", "lzma2", 2, ["f", "F", "X"], {}, "tour"),
+              ("w-flush-only", "lzip", 2, ["f", "X"], {}, "tour"),
               ("w-midflush", "lzma2", 2, ["F", "P", "f", "F", "F", "X"], {}, "rand"),
               ("w-midflush-lzip-3w", "lzip", 3, ["F", "P", "f", "F", "X"], {}, "rand")]
         if not quick:
